@@ -50,6 +50,55 @@ def raised_by_harness(exc):
     return fname.startswith(_HARNESS_DIR + os.sep)
 
 
+class NonTermination(BaseException):
+    """Raised by the watchdog inside a real call that used up its CPU budget."""
+
+
+class Watchdog:
+    """CPU-time guard for calls into the code under test (a broken variant may
+    loop forever).  `call` returns (value, exception); a budget overrun is
+    returned as a `NonTermination` instance, to be reported as a failure with
+    class "non-termination".  After `max_trips` overruns `exhausted` is True and
+    the caller must stop enumerating (and report exhaustive=False)."""
+
+    def __init__(self, cpu_seconds=1.0, max_trips=2):
+        import signal
+
+        self._signal = signal
+        self.cpu_seconds = cpu_seconds
+        self.max_trips = max_trips
+        self.trips = 0
+        signal.signal(signal.SIGVTALRM, self._on_alarm)
+
+    @staticmethod
+    def _on_alarm(signum, frame):
+        raise NonTermination("CPU budget of the watchdog exceeded")
+
+    @property
+    def exhausted(self):
+        return self.trips >= self.max_trips
+
+    def arm(self):
+        self._signal.setitimer(self._signal.ITIMER_VIRTUAL, self.cpu_seconds)
+
+    def disarm(self):
+        self._signal.setitimer(self._signal.ITIMER_VIRTUAL, 0)
+
+    def call(self, fn, *args, **kwargs):
+        self.arm()
+        try:
+            return fn(*args, **kwargs), None
+        except NonTermination as nt:
+            self.trips += 1
+            return None, nt
+        except Exception as ex:  # noqa: BLE001 -- observation about the code under test
+            if raised_by_harness(ex):
+                raise
+            return None, ex
+        finally:
+            self.disarm()
+
+
 # --------------------------------------------------------------------------
 # enumeration
 # --------------------------------------------------------------------------
@@ -152,20 +201,39 @@ def shard_range(total, shard, nshards):
     return range(shard, total, nshards)
 
 
+def _guarded(packed):
+    """Runs in the child.  Exceptions are returned as text: several conductor
+    exception classes cannot be unpickled (keyword-only constructors), which
+    would hang `Pool.map` in the parent instead of failing."""
+    worker, arg = packed
+    try:
+        return ("ok", worker(arg))
+    except BaseException:  # noqa: BLE001
+        import traceback
+
+        return ("err", traceback.format_exc())
+
+
 def run_sharded(worker, common_payload, nshards=None, processes=None):
     """Run `worker((shard, nshards, common_payload))` for every shard in a Pool
     and return the list of results in shard order.  `worker` must be a module
-    level function.  A worker exception propagates (module crash, exit 3)."""
+    level function.  A worker exception becomes a HarnessError in the parent
+    (module crash, exit 3) -- never a check failure."""
     import multiprocessing
 
     processes = processes or n_processes()
     nshards = nshards or processes * 4
-    args = [(s, nshards, common_payload) for s in range(nshards)]
+    args = [(worker, (s, nshards, common_payload)) for s in range(nshards)]
     if processes == 1:
-        return [worker(a) for a in args]
-    ctx = multiprocessing.get_context("fork")
-    with ctx.Pool(processes=processes) as pool:
-        return pool.map(worker, args, chunksize=1)
+        res = [_guarded(a) for a in args]
+    else:
+        ctx = multiprocessing.get_context("fork")
+        with ctx.Pool(processes=processes) as pool:
+            res = pool.map(_guarded, args, chunksize=1)
+    for tag, val in res:
+        if tag != "ok":
+            raise HarnessError("worker crashed:\n" + val)
+    return [val for _, val in res]
 
 
 # --------------------------------------------------------------------------
